@@ -153,9 +153,6 @@ func loadProgram(files []harnessFile, pkgDirs []string) (*ssa.Program, map[strin
 		need[d] = true
 	}
 	for _, f := range files {
-		if f.pkgDir != "internal/vrt" && !need[f.pkgDir] {
-			continue
-		}
 		b, err := os.ReadFile(f.src)
 		if err != nil {
 			fatal("read %s: %v", f.src, err)
@@ -339,9 +336,7 @@ func runReplays(files []harnessFile, reps []string, hang bool) map[string]replay
 		var pkgName string
 		names := map[string]bool{}
 		for _, f := range files {
-			if f.pkgDir == "internal/vrt" || f.pkgDir == dir {
-				ov[f.virtual] = f.src
-			}
+			ov[f.virtual] = f.src
 			if f.pkgDir == dir {
 				b, _ := os.ReadFile(f.src)
 				if m := regexp.MustCompile(`(?m)^package (\w+)`).FindSubmatch(b); m != nil {
